@@ -580,11 +580,18 @@ theorem splitSp_no_space : ∀ (l : List Char) (p : List Char), p ∈ splitSp l 
         exact fun h => hc h.symm
       · exact ih p hp
 
+theorem mem_dropSpaces {len : List Char → Nat} {c : Char} : ∀ (f : Nat) (p : List Char), c ∈ dropSpaces len f p → c ∈ p
+  | 0, _, h => h
+  | f + 1, p, h => by
+    simp only [dropSpaces] at h
+    split at h
+    · exact h
+    · exact List.mem_of_mem_drop (mem_dropSpaces f _ h)
+
 theorem mem_trim {c : Char} {p : List Char} (h : c ∈ trim p) : c ∈ p := by
   simp only [trim, List.mem_reverse] at h
-  have h1 := (List.dropWhile_sublist isSpace).subset h
-  simp only [List.mem_reverse] at h1
-  exact (List.dropWhile_sublist isSpace).subset h1
+  have h1 := mem_dropSpaces _ _ h
+  exact mem_dropSpaces _ _ (List.mem_reverse.mp h1)
 
 theorem mem_cleanPart {c : Char} {p : List Char} (h : c ∈ cleanPart p) : c ∈ p ∧ c ≠ '_' := by
   simp only [cleanPart, List.mem_filter, decide_eq_true_eq] at h
@@ -938,7 +945,9 @@ theorem step_valid (cfg : Cfg) (st st' : St) (cl : Clause) (h : step cfg st cl =
     simp only [step] at h
     split at h
     · cases h
-    · injection h with h; subst h; dsimp only; exact ValidStory.mono (upsert_mono st.table c _) hv
+    · split at h
+      · cases h
+      · injection h with h; subst h; dsimp only; exact ValidStory.mono (upsert_mono st.table c _) hv
   | storyline text =>
     simp only [step] at h
     split at h
@@ -1004,7 +1013,9 @@ theorem step_other_story {cfg : Cfg} {st st' : St} {cl : Clause} (h : step cfg s
     simp only [step] at h
     split at h
     · cases h
-    · injection h with h; subst h; rfl
+    · split at h
+      · cases h
+      · injection h with h; subst h; rfl
   | storyline t => exact absurd rfl (h1 t)
   | edit f => exact absurd rfl (h2 f)
 
@@ -1072,12 +1083,14 @@ theorem step_table {cfg : Cfg} {st st' : St} {cl : Clause} (h : step cfg st cl =
     simp only [step] at h
     split at h
     · cases h
-    · injection h with h; subst h
-      by_cases hc : c = c'
-      · subst hc
-        cases s <;> simp [tableAfter, upsert, specDefined, specEntails, specMood]
-      · have hc' : ¬ c' = c := fun e => hc e.symm
-        simp [tableAfter, upsert, specDefined, specEntails, specMood, hc, hc']
+    · split at h
+      · cases h
+      · injection h with h; subst h
+        by_cases hc : c = c'
+        · subst hc
+          cases s <;> simp [tableAfter, upsert, specDefined, specEntails, specMood]
+        · have hc' : ¬ c' = c := fun e => hc e.symm
+          simp [tableAfter, upsert, specDefined, specEntails, specMood, hc, hc']
   | entails c' t actions =>
     simp only [step] at h
     split at h
